@@ -163,6 +163,12 @@ func units(tier string) []mc.Unit {
 					if chunk == 10 && (tier == "thorough" || ii == 1) {
 						add(params{ini, fin, []Mutation{f1}, chunk, 1, 1, true}) // the same next to a second subscriber
 					}
+					if chunk == 10 && (tier == "thorough" || ii == 1) {
+						// the reorg, then finality moving past every replaced block, then growth - with one restart: the node may
+						// be down for all of it (restart-after-the-chain-moved-on) or any part of it
+						fz := Mutation{"finalize", 0, nil}
+						add(params{ini, fin, []Mutation{f1, fz, fz, fz, fz, {"extend", 0, []string{"e"}}}, chunk, 1, 1, false})
+					}
 					if tier == "quick" && (ii != 1 || fin != 0) {
 						continue
 					}
@@ -224,6 +230,9 @@ type world struct {
 	// blocks handed to the reorg detector (AddBlockToTrack succeeded) whose ProcessBlock never succeeded: the node was
 	// stopped between the two calls of EVMDriver.handleNewBlock. The tracker then holds a block the store never held.
 	trackedUnprocessed map[uint64]common.Hash
+	// orphanTracked: what trackedUnprocessed held when an incarnation was stopped (never shrinks): blocks the tracker got
+	// from a node that was stopped before it processed them
+	orphanTracked map[uint64]common.Hash
 }
 
 type incarnation struct {
@@ -421,7 +430,11 @@ func (w *world) onReorg(first uint64) {
 	case !w.everReplaced && deletes:
 		key := "rewound-although-nothing-processed-was-replaced"
 		why := ""
-		if h, ok := w.trackedUnprocessed[first]; ok && (first > w.chain.Tip() || w.chain.Hash(first) != h) {
+		h, ok := w.trackedUnprocessed[first]
+		if !ok {
+			h, ok = w.orphanTracked[first]
+		}
+		if ok && (first > w.chain.Tip() || w.chain.Hash(first) != h) {
 			// the one history that is recorded as a known finding: the node was stopped between AddBlockToTrack(b) and
 			// ProcessBlock(b), b was replaced, and the new fork's b is not delivered again (no watched event): the detector
 			// still holds the old b and reports it, the driver rewinds canonical blocks >= b that it has to fetch again
@@ -528,7 +541,7 @@ func run(c *mc.Ctx, u mc.Unit) {
 	}
 	chain.Visible = chain.Tip()
 	chain.Finalized = p.Finalized
-	w := &world{c: c, p: p, sched: sched, chain: chain, lastDetect: -1, trackedUnprocessed: map[uint64]common.Hash{}}
+	w := &world{c: c, p: p, sched: sched, chain: chain, lastDetect: -1, trackedUnprocessed: map[uint64]common.Hash{}, orphanTracked: map[uint64]common.Hash{}}
 	// every object that opens a database is constructed BEFORE the bubble (one set per incarnation)
 	storePath := filepath.Join(dir, "l1info.sqlite")
 	rdPath := filepath.Join(dir, "rd.sqlite")
@@ -760,6 +773,11 @@ func (w *world) explore(incs []*incarnation) {
 		}
 		if next < len(incs) {
 			alts = append(alts, alt{kind: "restart"}, alt{kind: "restart-after-shutdown"})
+			if len(script) > 0 {
+				// a long downtime: the node is stopped here and comes back only after the rest of the script happened
+				// (forks, finality moving on, new blocks)
+				alts = append(alts, alt{kind: "restart-after-the-chain-moved-on"})
+			}
 		}
 		if len(en) == 0 && len(script) == 0 && !w.detectBusy && w.lastDetect == w.activity {
 			// quiescent, script exhausted, detector silent: END is the default
@@ -772,13 +790,23 @@ func (w *world) explore(incs []*incarnation) {
 		switch a.kind {
 		case "end":
 			goto end
-		case "restart", "restart-after-shutdown":
+		case "restart", "restart-after-shutdown", "restart-after-the-chain-moved-on":
 			if a.kind == "restart-after-shutdown" {
 				w.inc.graceful = true
 				c.Witness("restarts_after_a_shutdown")
 			}
 			w.stop(w.inc)
+			for k, v := range w.trackedUnprocessed {
+				w.orphanTracked[k] = v
+			}
 			c.Witness("restarts")
+			if a.kind == "restart-after-the-chain-moved-on" {
+				for len(script) > 0 {
+					w.mutate(script[0])
+					script = script[1:]
+				}
+				c.Witness("restarts_after_a_long_downtime")
+			}
 			w.detectBusy = false // a check in flight died with the process (its goroutine stays parked until the end)
 			w.lastDetect = -1
 			w.activity++
